@@ -153,19 +153,25 @@ func (c *Calcium) withNodesLocked(ctx context.Context, nodeFilter *types.NodeFil
 		return err
 	}
 
-	var lock lock.DistributedLock
+	// the keys are locked in ascending order, each once, whatever the order of the nodes
+	// (nodes sorted by name may belong to pods in any order)
+	keys := []string{}
 	for _, n := range ns {
-		key := genKey(n)
-		if _, ok := locks[key]; !ok {
-			lock, ctx, err = c.doLock(ctx, key, c.config.LockTimeout)
-			if err != nil {
-				return err
-			}
-			logger.Debugf(ctx, "key %s locked", key)
-			locks[key] = lock
-			lockKeys = append(lockKeys, key)
-		}
+		keys = append(keys, genKey(n))
 		nodes[n.Name] = n
+	}
+	sort.Strings(keys)
+	keys = keys[:utils.Unique(keys, func(i int) string { return keys[i] })]
+
+	var lock lock.DistributedLock
+	for _, key := range keys {
+		lock, ctx, err = c.doLock(ctx, key, c.config.LockTimeout)
+		if err != nil {
+			return err
+		}
+		logger.Debugf(ctx, "key %s locked", key)
+		locks[key] = lock
+		lockKeys = append(lockKeys, key)
 	}
 	return f(ctx, nodes)
 }
